@@ -553,3 +553,116 @@ def selftest():
             h = 1e-6
             fd = (rho0(k, 0.9, x + h) - rho0(k, 0.9, x - h)) / (2 * h)
             assert abs(fd - rho1(k, 0.9, x)) < 1e-7, (k, x)
+
+
+# ------------------------------------------------------------------------------------
+# weights in every documented broadcastable shape on residuals with several leading dimensions
+class PosePoints(nn.Module):
+    def __init__(self, X0, t0, pts, glt):
+        super().__init__()
+        self.X = pp.Parameter(pp.LieTensor(torch.tensor(X0), ltype=tu.LT[glt]))
+        self.t = nn.Parameter(torch.tensor(t0))
+        self.pts = torch.tensor(pts)
+
+    def forward(self, dummy):
+        B = self.X.shape[0]
+        X = self.X.view(B, 1, 1, -1) if not isinstance(self.X, pp.LieTensor) else self.X.lview(B, 1, 1)
+        return X.Act(self.pts) + self.t          # (B, M, N, 3)
+
+
+class WeightShapes(Sub):
+    """residual of shape B x M x N x R with weights R*R, N*R*R, M*N*R*R, B*M*N*R*R (distinct SPD slices): the system handed to the
+    solver must be built with the weight broadcast trailing-aligned over the residual's leading dimensions"""
+    name = "weight_shapes"
+    n = {"quick": 400, "thorough": 12000}
+
+    def strategy(self, tier):
+        return st.fixed_dictionaries({"seed": st.integers(0, 10 ** 7), "glt": st.sampled_from(("SE3", "SO3")), "B": st.integers(1, 3), "M": st.integers(1, 3),
+                                      "N": st.integers(1, 3), "wshape": st.sampled_from(("RR", "NRR", "MNRR", "BMNRR")), "opt": st.sampled_from(("GN", "LM")),
+                                      "at_step": st.booleans(), "vectorize": st.booleans(), "kernel": st.sampled_from((None, None, "Huber", "Cauchy"))})
+
+    def oracle(self, case, rec):
+        glt, B, M, N = case["glt"], case["B"], case["M"], case["N"]
+        rs = np.random.RandomState(case["seed"])
+        q = rs.randn(B, 4); q /= np.linalg.norm(q, axis=1, keepdims=True)
+        X0 = np.concatenate([rs.randn(B, 3), q], 1) if glt == "SE3" else q
+        t0 = rs.randn(3)
+        pts = rs.randn(M, N, 3)
+        tgt = rs.randn(B, M, N, 3)
+        lead = {"RR": (), "NRR": (N,), "MNRR": (M, N), "BMNRR": (B, M, N)}[case["wshape"]]
+        nW = int(np.prod(lead)) if lead else 1
+        Ws = []
+        for _ in range(nW):
+            Q, _r = np.linalg.qr(rs.randn(3, 3))
+            Ws.append(Q @ np.diag(10.0 ** rs.uniform(-1, 1, size=3)) @ Q.T)
+        W = np.stack(Ws).reshape(lead + (3, 3))
+        Wfull_blocks = np.broadcast_to(W, (B, M, N, 3, 3)).reshape(-1, 3, 3)
+        # reference residual and analytic left-perturbation Jacobian (numpy only)
+        td = 6 if glt == "SE3" else 3
+        sd = 7 if glt == "SE3" else 4
+        nres = B * M * N * 3
+        r = np.zeros((B, M, N, 3)); Jt = np.zeros((nres, B * td + 3))
+        row = 0
+        for b in range(B):
+            Rm = R.qrot(X0[b, -4:]); tb = X0[b, :3] if glt == "SE3" else np.zeros(3)
+            for m in range(M):
+                for n_ in range(N):
+                    y = Rm @ pts[m, n_] + tb
+                    r[b, m, n_] = y + t0 - tgt[b, m, n_]
+                    blk = np.concatenate([np.eye(3), -R.skew(y)], 1) if glt == "SE3" else -R.skew(y)
+                    Jt[row:row + 3, b * td:(b + 1) * td] = blk
+                    Jt[row:row + 3, B * td:] = np.eye(3)
+                    row += 3
+        kname, kd = case["kernel"], 1.0
+        g1 = rho1(kname, kd, (r ** 2).sum(-1)).reshape(-1)
+        s = np.repeat(np.sqrt(g1), 3)
+        rc = s * r.reshape(-1)
+        Jc = s[:, None] * Jt
+        Wfull = np.zeros((nres, nres))
+        for i, blk in enumerate(Wfull_blocks):
+            Wfull[3 * i:3 * i + 3, 3 * i:3 * i + 3] = blk
+        # storage coordinates: zero column after every group item's tangent block
+        Js = np.zeros((nres, B * sd + 3))
+        for b in range(B):
+            Js[:, b * sd:b * sd + td] = Jc[:, b * td:(b + 1) * td]
+        Js[:, B * sd:] = Jc[:, B * td:]
+        model = PosePoints(X0, t0, pts, glt)
+        rsol = RecSolver(pp.optim.solver.PINV() if case["opt"] == "GN" else pp.optim.solver.Cholesky())
+        kobj = KERNELS[kname](kd) if kname else None
+        Wt = torch.tensor(W)
+        kw0 = {} if case["at_step"] else {"weight": Wt}
+        if case["opt"] == "GN":
+            opt = pp.optim.GN(model, solver=rsol, kernel=kobj, vectorize=case["vectorize"], **kw0)
+        else:
+            opt = pp.optim.LM(model, solver=rsol, strategy=pp.optim.strategy.Constant(damping=1e-3), kernel=kobj, vectorize=case["vectorize"], reject=0, min=1e-9, max=1e32, **kw0)
+        try:
+            with rec.sut("%s.step(weight %s)" % (case["opt"], case["wshape"]), allow=(RuntimeError,) if case["vectorize"] else ()):
+                opt.step(torch.zeros(1), target=torch.tensor(tgt), **({"weight": Wt} if case["at_step"] else {}))
+        except RuntimeError as e:
+            if "vmap" in str(e):
+                rec.label("vectorize_unsupported")
+                return
+            rec.fail("raises:RuntimeError:step", str(e)[:300])
+            return
+        rec.label(glt, case["opt"], "w:" + case["wshape"], "B%dM%dN%d" % (B, M, N))
+        distinct = nW > 1
+        if distinct and case["wshape"] in ("NRR", "MNRR") and B * M > 1:
+            rec.nt(("wshape", glt, case["opt"], case["wshape"], B, M, N, kname, case["at_step"]))
+        if not rec.check(len(rsol.calls) >= 1, "no_solve", "no solver call recorded"):
+            return
+        A, b_, x = rsol.calls[0]
+        if case["opt"] == "GN":
+            Aref, bref = Wfull @ Js, -Wfull @ rc
+        else:
+            JTW = Js.T @ Wfull
+            A0 = JTW @ Js
+            A0[np.diag_indices_from(A0)] = np.clip(np.diag(A0), 1e-9, 1e32)
+            Aref, bref = A0 + np.diag(np.diag(A0) * 1e-3), -(JTW @ rc)
+        eA = float(np.abs(A - Aref).max()) / max(1.0, float(np.abs(Aref).max()))
+        eb = float(np.abs(b_.reshape(-1) - bref).max()) / max(1.0, float(np.abs(bref).max()))
+        rec.notes["ws_A"] = max(rec.notes.get("ws_A", 0), eA / 1e-9)
+        rec.check(eA <= 1e-9, "weighted_system_A:%s" % case["wshape"], lambda: "%s with weight shape %s on a %dx%dx%dx3 residual: solver matrix differs from the reference (trailing-aligned weight broadcast) by %.3g" % (case["opt"], case["wshape"], B, M, N, eA))
+        rec.check(eb <= 1e-9, "weighted_system_b:%s" % case["wshape"], lambda: "%s with weight shape %s: right-hand side differs from the reference by %.3g" % (case["opt"], case["wshape"], eb))
+
+
+SUBS.append(WeightShapes())
